@@ -26,6 +26,14 @@ macro_rules! assert_ne {
     ($a:expr, $b:expr, $($arg:tt)+) => { if $a == $b { controlled_panic() } };
 }
 
+// an explicit panic is a controlled panic: only allowed where the contract lists that outcome
+macro_rules! panic {
+    ($($arg:tt)*) => { controlled_panic() };
+}
+macro_rules! unreachable {
+    ($($arg:tt)*) => { controlled_panic() };
+}
+
 // debug assertions do not exist in release builds: verified as absent (the worst case)
 macro_rules! debug_assert {
     ($($arg:tt)*) => { () };
